@@ -9,7 +9,7 @@ W=/tmp/sweep_repo; B=/tmp/sweep_build
 git -C /repo worktree remove --force $W >/dev/null 2>&1; rm -rf $B
 git -C /repo worktree add -f $W HEAD >/dev/null 2>&1 || { echo "worktree failed"; exit 9; }
 trap 'git -C /repo worktree remove --force $W >/dev/null 2>&1; rm -rf $B' EXIT
-export VERIF_REPO=$W VERIF_BUILD=$B
+export VERIF_REPO=$W VERIF_BUILD=$B VERIF_OUT=$B
 HEAD=$(git -C /repo rev-parse --short HEAD)
 OUT=$V/seeded/RESULTS.md
 if [ "$PAT" = "." ]; then
